@@ -3,8 +3,8 @@ import Storrent.Util
 peer/requests.Requests (peer/requests/requests.go), the model used by C05.
 
 `queue` (unsent), `requested` (sent, with the cancel mark) and the membership bitmap.
-The bitmap is kept as a list of bits whose length is a multiple of 8 (one Go byte = 8
-entries, MSB first = list order), which is observationally the Go `bitmap.Bitmap`:
+The bitmap is kept as a list of bits (MSB first = list order; the Go byte length is
+`⌈length/8⌉`), which is observationally the Go `bitmap.Bitmap`:
 `Get` beyond the end is false, `Reset` beyond the end is a no-op, `Set` extends to the
 byte that contains the bit.  Times are not modelled (expiry is driven by the clock, not
 by the remote peer).  The two Go panics (`"Requests is broken!"` in `del`,
@@ -25,16 +25,20 @@ structure Requests where
 
 def bGet (b : List Bool) (i : Nat) : Bool := b.getD i false
 
-/-- `Bitmap.Extend(i)`: at least `i/8+1` bytes -/
+/-- `Bitmap.Extend(i)`: room for bit `i`; the Go byte length is `⌈length/8⌉` -/
 def bExtend (b : List Bool) (i : Nat) : List Bool :=
-  if b.length < (i / 8 + 1) * 8 then b ++ List.replicate ((i / 8 + 1) * 8 - b.length) false else b
+  if b.length ≤ i then b ++ List.replicate (i + 1 - b.length) false else b
 
 def bSet (b : List Bool) (i : Nat) : List Bool := (bExtend b i).set i true
 def bReset (b : List Bool) (i : Nat) : List Bool := b.set i false
 
-/-- bytes allocated by `Set(i)` when it has to grow the bitmap (the new backing array) -/
+/-- Go byte length of the bitmap -/
+def bBytes (b : List Bool) : Nat := (b.length + 7) / 8
+
+/-- bytes allocated by `Set(i)` when it has to grow the bitmap (the new backing array):
+    exactly when the Go byte length `⌈length/8⌉` does not reach byte `i/8` -/
 def bSetAlloc (b : List Bool) (i : Nat) : Nat :=
-  if b.length < (i / 8 + 1) * 8 then i / 8 + 1 else 0
+  if bBytes b ≤ i / 8 then i / 8 + 1 else 0
 
 /-- Go: `rs.x[i] = rs.x[l-1]; rs.x = rs.x[:l-1]` -/
 def swapDel {α : Type} (l : List α) (i : Nat) : List α :=
@@ -94,7 +98,7 @@ def clear (rs : Requests) (both : Bool) : Requests × List Nat × Nat :=
     ({ queue := [], requested := [], bits := [] }, rs.requested.map (·.index) ++ rs.queue, 0)
   else
     let bits := rs.requested.foldl (fun b r => bSet b r.index) []
-    ({ queue := [], requested := rs.requested, bits := bits }, rs.queue, bits.length / 8)
+    ({ queue := [], requested := rs.requested, bits := bits }, rs.queue, bBytes bits)
 
 /-- the structural invariant: no index twice, bitmap = exact membership -/
 def Consistent (rs : Requests) : Prop :=
